@@ -174,51 +174,62 @@ Fixpoint sys_read (o : list ans) : ans * list ans :=
 
 Definition refuses (b : abuf) : bool := negb (b_base b) || (b_len b <=? 0).
 
-(* the while loop of uv__read; [count] is the 32-iteration budget *)
+(* one iteration of the while loop of uv__read (the loop condition held);
+   the boolean says whether the loop goes on (false = return) *)
+Definition read_iter (E : env) (s : st) : st * list event * bool :=
+  let id := nalloc s in
+  let b := allocs E id in                     (* alloc_cb(handle, 64 * 1024, &buf) *)
+  let ea := EAlloc id 65536 b in
+  let s1 := bump_alloc s in
+  if refuses b then
+    (* User indicates it can't or won't handle the read. *)
+    let '(s2, evs) := call_read_cb E s1 UV_ENOBUFS (Some id) 0 0 in
+    (s2, ea :: evs, false)
+  else
+    let '(a, o') := sys_read (oracle s1) in
+    match a with
+    | Intr | Again =>
+        let s2 := set_kernel s1 (pos s1) o' in
+        (* if (flags & READING) uv__io_start(POLLIN) *)
+        let s3 := if reading s2
+                  then set_flags s2 (reading s2) (partial s2) (eof s2) (readable s2)
+                                 (active s2) true (rcb s2)
+                  else s2 in
+        let '(s4, evs) := call_read_cb E s3 0 (Some id) 0 0 in
+        (s4, ea :: ESys (b_len b) Again (pos s1) :: evs, false)
+    | Err e =>
+        (* flags &= ~(READABLE|WRITABLE); read_cb(err); if (READING) stop *)
+        let s2 := set_readable (set_kernel s1 (pos s1) o') false in
+        let '(s3, evs) := call_read_cb E s2 (Zneg e) (Some id) 0 0 in
+        let s4 := if reading s3 then stop_reading s3 else s3 in
+        (s4, ea :: ESys (b_len b) (Err e) (pos s1) :: evs, false)
+    | Eof =>
+        let s2 := set_kernel s1 (pos s1) o' in
+        let '(s3, evs) := stream_eof E s2 (Some id) in
+        (s3, ea :: ESys (b_len b) Eof (pos s1) :: evs, false)
+    | Data n =>
+        let nread := Z.max 1 (Z.min n (b_len b)) in
+        let s2 := set_kernel s1 (pos s1 + nread) o' in
+        let '(s3, evs) := call_read_cb E s2 nread (Some id) (pos s1) nread in
+        (* Return if we didn't fill the buffer, there is no more data to read. *)
+        if nread <? b_len b
+        then (set_partial s3 true, ea :: ESys (b_len b) (Data nread) (pos s1) :: evs, false)
+        else (s3, ea :: ESys (b_len b) (Data nread) (pos s1) :: evs, true)
+    end.
+
+(* while (stream->read_cb && (flags & READING) && count-- > 0) *)
+Definition loop_cond (s : st) : bool :=
+  match rcb s with Some _ => reading s | None => false end.
+
 Fixpoint read_loop (E : env) (count : nat) (s : st) : st * list event :=
   match count with
   | O => (s, [])
   | S c =>
-    if negb (match rcb s with Some _ => true | None => false end && reading s) then (s, [])
+    if negb (loop_cond s) then (s, [])
     else
-      let id := nalloc s in
-      let b := allocs E id in
-      let ea := EAlloc id 65536 b in
-      let s1 := bump_alloc s in
-      if refuses b then
-        let '(s2, evs) := call_read_cb E s1 UV_ENOBUFS (Some id) 0 0 in
-        (s2, ea :: evs)
-      else
-        let '(a, o') := sys_read (oracle s1) in
-        match a with
-        | Intr | Again =>
-            let s2 := set_kernel s1 (pos s1) o' in
-            (* if (flags & READING) uv__io_start(POLLIN) *)
-            let s3 := if reading s2
-                      then set_flags s2 (reading s2) (partial s2) (eof s2) (readable s2)
-                                     (active s2) true (rcb s2)
-                      else s2 in
-            let '(s4, evs) := call_read_cb E s3 0 (Some id) 0 0 in
-            (s4, ea :: ESys (b_len b) Again (pos s1) :: evs)
-        | Err e =>
-            let s2 := set_readable (set_kernel s1 (pos s1) o') false in
-            let '(s3, evs) := call_read_cb E s2 (Zneg e) (Some id) 0 0 in
-            let s4 := if reading s3 then stop_reading s3 else s3 in
-            (s4, ea :: ESys (b_len b) (Err e) (pos s1) :: evs)
-        | Eof =>
-            let s2 := set_kernel s1 (pos s1) o' in
-            let '(s3, evs) := stream_eof E s2 (Some id) in
-            (s3, ea :: ESys (b_len b) Eof (pos s1) :: evs)
-        | Data n =>
-            let nread := Z.max 1 (Z.min n (b_len b)) in
-            let s2 := set_kernel s1 (pos s1 + nread) o' in
-            let '(s3, evs) := call_read_cb E s2 nread (Some id) (pos s1) nread in
-            if nread <? b_len b then
-              (set_partial s3 true, ea :: ESys (b_len b) (Data nread) (pos s1) :: evs)
-            else
-              let '(s4, evs') := read_loop E c s3 in
-              (s4, ea :: ESys (b_len b) (Data nread) (pos s1) :: evs ++ evs')
-        end
+      let '(s1, e1, go) := read_iter E s in
+      if go then let '(s2, e2) := read_loop E c s1 in (s2, e1 ++ e2)
+      else (s1, e1)
   end.
 
 (* uv__read *)
